@@ -686,3 +686,16 @@ v("c12-handler-returns-reported-error", "C12", "TYPE-WITNESS", V + "rules/known_
   "            self.report_error(\n", "            return self.report_error(  # noqa\n",
   extra_edits=[{"file": V + "rules/__init__.py", "old": "    def report_error(self, error: GraphQLError) -> None:\n        \"\"\"Report a GraphQL error.\"\"\"\n        self.context.report_error(error)\n",
                 "new": "    def report_error(self, error: GraphQLError) -> GraphQLError:\n        \"\"\"Report a GraphQL error.\"\"\"\n        self.context.report_error(error)\n        return error\n"}])
+
+# -- round 4: C03 ------------------------------------------------------------------------------------------
+v("c03-nonnull-tested-before-completion", "C03", "NONNULL-AFTER-COMPLETION", E + "executor.py",
+  "            if completed is None:\n                msg = (\n                    \"Cannot return null for non-nullable field\"\n                    f\" {info.parent_type}.{info.field_name}.\"\n                )\n                raise TypeError(msg)\n            return completed\n",
+  "            if result is None:\n                msg = (\n                    \"Cannot return null for non-nullable field\"\n                    f\" {info.parent_type}.{info.field_name}.\"\n                )\n                raise TypeError(msg)\n            return completed\n")
+v("c03-located-error-reinitialises-original", "C03", "PARAM-READONLY", "src/graphql/error/located_error.py",
+  "    if isinstance(original_error, GraphQLError) and original_error.path is not None:\n        return original_error\n",
+  "    if isinstance(original_error, GraphQLError):\n        if original_error.path is None:\n            GraphQLError.__init__(original_error, original_error.message, original_error.nodes or nodes, path=path)\n        return original_error\n")
+v("c03-runtime-type-memo-by-name", "C03", "MEMO-KEY-COVER", E + "executor.py",
+  "        runtime_type = self.schema.get_type(runtime_type_name)\n\n        if runtime_type is None:\n",
+  "        runtime_type = self._runtime_types.get(runtime_type_name)\n        if runtime_type is not None:\n            return runtime_type\n        runtime_type = self.schema.get_type(runtime_type_name)\n\n        if runtime_type is None:\n",
+  extra_edits=[{"file": E + "executor.py", "old": "        self._stream_usages: RefMap[FieldDetailsList, StreamUsage] = RefMap()\n", "new": "        self._stream_usages: RefMap[FieldDetailsList, StreamUsage] = RefMap()\n        self._runtime_types: dict[str, Any] = {}\n"},
+               {"file": E + "executor.py", "old": "            raise GraphQLError(msg, to_nodes(field_details_list))\n\n        return runtime_type\n", "new": "            raise GraphQLError(msg, to_nodes(field_details_list))\n\n        self._runtime_types[runtime_type_name] = runtime_type\n        return runtime_type\n"}])
